@@ -364,8 +364,7 @@ macro_rules! roundtrip {
             }
             // ---- round trip (C11)
             let r = CountMinSketch::<$t>::deserialize(&bytes);
-            assert!(r.is_ok(), "own image rejected");
-            let g = r.unwrap();
+            let g = crate::verif_kani_common::expect_ok(r, "own image rejected");
             assert!(g.num_hashes == 1 && g.num_buckets == 3 && g.seed == s.seed && g.seed_hash == s.seed_hash);
             assert!(g.hash_seeds.len() == 1 && g.hash_seeds[0] == s.hash_seeds[0]);
             assert!(g.total_weight == total);
